@@ -125,6 +125,15 @@ def run(ck: Check):
             continue
         for atom in ("line", "symbol") + (("char", "jsstr", "attrs") if small and len(data) < 70000 else ()):
             ex.one("minimize", {}, None, data, "Y" * 8, atom=atom, load=True, stream="block-boundary", model=False, cap=5, light=False)
+    # a test that edits the HEAD of the file in place while it runs (same length): every later candidate is written out
+    # whole, so it begins with the original bytes again - also when the text in front of the region is large (8 KiB, 64 KiB)
+    for plen in (10, 4095, 4096, 8191, 8192, 8193, 65536, 70000):
+        head = b"// " + b"p" * max(0, plen - 14) + b"\n// DDBEGIN\n"
+        data = head + b"l1\nl2\nl3\nl4\nl5\n" + b"// DDEND\ntail\n"
+        for atom in ("line", "char", "symbol"):
+            for v in ("Y" * 40, "Y" + "NY" * 20, "YN" + "Y" * 30):
+                ex.one("minimize", {}, None, data, v, atom=atom, load=True, stream="test-stamps-the-head", model=False, cap=30,
+                       scribble="stamp", light=False)
     ex.diff()
     return ck.finish(level="proof", rule=RULE, assumptions=[
         "replace-* and the experimental move: their candidates are taken from the real generators "
